@@ -163,3 +163,39 @@ def eval_prefix(fn, env, max_blocks=64):
         else:
             return env, b
     return env, b
+
+
+def eval_pure(fn, env, max_blocks=64):
+    """value returned by a loop-free, call-free function for one point of a finite input grid (constant propagation along the single feasible path)."""
+    env = dict(env)
+    b = fn.entry
+    seen = set()
+    for _ in range(max_blocks):
+        if b is None or b in seen:
+            raise Unknown("loop or dead end")
+        seen.add(b)
+        blk = fn.blocks[b]
+        for e in blk["elems"]:
+            n = fn.nodes[e]
+            if n["k"] == "decl":
+                for v in n["vars"]:
+                    if "init" in v:
+                        env[v["name"]] = evalx(fn, v["init"], env)
+            elif n["k"] == "bin" and n["op"] == "=":
+                c = fn.kids(e)
+                if fn.nodes[c[0]]["k"] == "ref":
+                    env[fn.nodes[c[0]]["name"]] = evalx(fn, c[1], env)
+            elif n["k"] == "return":
+                k = fn.kids(e)
+                if not k:
+                    raise Unknown("void return")
+                return evalx(fn, k[0], env)
+        succ = blk["succ"]
+        if "cond" in blk and len(succ) == 2:
+            v = evalx(fn, blk["cond"], env)
+            b = succ[0] if v else succ[1]
+        elif succ:
+            b = succ[0]
+        else:
+            raise Unknown("no successor")
+    raise Unknown("too long")
